@@ -56,8 +56,9 @@ def gen_cases(rng, tier):
                 cases.append({'id': 'c02-bnd-%d' % k, 'cfg': cfg, 'hist': h, 'sub': 'ksim', 'tags': {'mode': 'boundary'}})
                 k += 1
     # numeric defcfg options at the ends of their range, with the feature they govern in use
-    OPT = [('dynamic-macro-max-presses', ['0', '1', '32767', '32768', '40000', '65535']), ('sequence-timeout', ['1', '65535']),
-           ('rapid-event-delay', ['0', '65535']), ('chords-v2-min-idle', ['5', '65535']), ('dynamic-macro-replay-delay-behaviour', ['constant', 'recorded'])]
+    OPT = [('dynamic-macro-max-presses', ['0', '1', '32767', '32768', '40000', '65535']), ('sequence-timeout', ['0', '1', '65535']),
+           ('rapid-event-delay', ['0', '1', '65535']), ('chords-v2-min-idle', ['0', '1', '4', '5', '65535']),
+           ('dynamic-macro-replay-delay-behaviour', ['constant', 'recorded'])]
     k = 0
     for name, vals in OPT:
         for v in vals:
